@@ -40,6 +40,12 @@ func (c *Client) handleChannelUpdate(uh UpdateHandler, p map[wallet.BackendID]wi
 		}
 		return
 	}
+	if ch.IsVirtualChannel() && ch.parent != nil && !ch.hasParticipant(ch.parent.Peers()[ch.parent.Idx()]) {
+		// We hold this virtual channel as its hub: we are not a party to its
+		// updates and have no key to sign them.
+		c.logChan(m.Base().ID()).WithField("peer", p).Warn("received update for virtual channel we are the hub of")
+		return
+	}
 	pidx := ch.Idx() ^ 1
 	ch.handleUpdateReq(pidx, m, uh)
 }
